@@ -186,7 +186,7 @@ struct _receiver<Predecessor, Receiver, Func, FuncPolicy>::type {
       diff_t num_chunks = (distance / max_num_chunks) > min_chunk_size
           ? max_num_chunks
           : ((distance + min_chunk_size) / min_chunk_size);
-      diff_t chunk_size = (distance + num_chunks) / num_chunks;
+      diff_t chunk_size = (distance + num_chunks - 1) / num_chunks;
 
       // Found flag and vector that will be constructed in-place in the
       // operation state
@@ -206,6 +206,7 @@ struct _receiver<Predecessor, Receiver, Func, FuncPolicy>::type {
            sched = std::forward<Scheduler>(sched),
            begin_it,
            chunk_size,
+           distance,
            end_it,
            num_chunks](Values&... values) mutable {
             return unifex::let_value_with(
@@ -226,14 +227,14 @@ struct _receiver<Predecessor, Receiver, Func, FuncPolicy>::type {
                                 unifex::bulk_schedule(
                                     std::move(sched), num_chunks),
                                 [&](diff_t index) {
-                                  auto chunk_begin_it =
-                                      begin_it + (chunk_size * index);
-                                  auto chunk_end_it = chunk_begin_it;
-                                  if (index < (num_chunks - 1)) {
-                                    std::advance(chunk_end_it, chunk_size);
-                                  } else {
-                                    chunk_end_it = end_it;
-                                  }
+                                  // Clamp both ends of the chunk to the range:
+                                  // chunk_size * num_chunks >= distance, but
+                                  // trailing chunks may be short or empty.
+                                  auto chunk_begin_it = begin_it +
+                                      std::min(chunk_size * index, distance);
+                                  auto chunk_end_it = begin_it +
+                                      std::min(
+                                          chunk_size * (index + 1), distance);
 
                                   for (auto it = chunk_begin_it;
                                        it != chunk_end_it;
